@@ -28,6 +28,7 @@ def run(repo, report, tier):
     report.guard("C03.R4", "match interval algebra", r4_intervals, repo, report)
     report.guard("C03.R5", "action dispatch", r5_actions, repo, report)
     report.guard("C03.R6", "modifier returns", r6_returns, repo, report)
+    report.guard("C03.R6", "empty reads", r6_empty_reads, repo, report)
     report.trust("dnaio.SequenceRecord.__getitem__(slice) slices sequence and qualities with the same slice and keeps the name (dnaio 1.2.4)")
     report.trust("str.lower/upper and str.translate with a table built by two-argument str.maketrans preserve the length")
 
@@ -501,3 +502,110 @@ def r6_returns(repo, report):
     for cname in ("QualityTrimmer", "NextseqQualityTrimmer", "PolyATrimmer", "UnconditionalCutter", "Shortener", "NEndTrimmer"):
         if cname not in repo.classes:
             report.unrecognised("C03.R6", cname, "slicing modifier class not found")
+
+
+_FIXTURE_EMPTY = """
+class Bad:
+    def __call__(self, read, info):
+        s = read.sequence
+        if s[0] != "N" and s[-1] != "N":
+            return read
+        return read[1:]
+
+class Good:
+    def __call__(self, read, info):
+        s = read.sequence
+        if s and s[0] != "N":
+            return read
+        if not read.qualities:
+            return read
+        return read[: ord(read.qualities[0])]
+"""
+
+
+def unguarded_constant_index(fn):
+    """Subscripts  x[k]  (k an integer constant) of the sequence / qualities string of a record parameter - or of a local
+    alias of it - that no enclosing or preceding test on that string protects: on an empty read they raise IndexError."""
+    ps = [a.arg for a in fn.args.args][1:]
+    strings = {f"{p_}.{a_}" for p_ in ps for a_ in ("sequence", "qualities")}
+    alias = {}
+    for n in ast.walk(fn):
+        if isinstance(n, ast.Assign) and len(n.targets) == 1 and isinstance(n.targets[0], ast.Name) and chain(n.value) in strings:
+            alias[n.targets[0].id] = chain(n.value)
+    out = []
+
+    def base_of(sub):
+        b = chain(sub.value)
+        if b in strings:
+            return b
+        if isinstance(sub.value, ast.Name) and sub.value.id in alias:
+            return sub.value.id
+        return None
+
+    def is_const_index(sl):
+        return (isinstance(sl, ast.Constant) and isinstance(sl.value, int)) or (isinstance(sl, ast.UnaryOp) and isinstance(sl.operand, ast.Constant) and isinstance(sl.operand.value, int))
+
+    def tests_base(test, base, skip):
+        """does the test look at the string itself (truthiness / len / comparison), other than through the subscript `skip`?"""
+        names = {base} | ({alias[base]} if base in alias else set()) | {k for k, v in alias.items() if v == base or v == alias.get(base)}
+        for x in ast.walk(test):
+            if x is skip:
+                continue
+            if isinstance(x, (ast.Name, ast.Attribute)) and chain(x) in names:
+                par = getattr(x, "_parent", None)
+                if isinstance(par, ast.Subscript) and par.value is x and is_const_index(par.slice):
+                    continue
+                return True
+        return False
+
+    for sub in ast.walk(fn):
+        if not (isinstance(sub, ast.Subscript) and is_const_index(sub.slice)):
+            continue
+        base = base_of(sub)
+        if base is None:
+            continue
+        guarded = False
+        node = sub
+        while node is not fn and node is not None and not guarded:
+            parent = getattr(node, "_parent", None)
+            if parent is None:
+                break
+            if isinstance(parent, ast.BoolOp) and isinstance(parent.op, ast.And):
+                idx = parent.values.index(node) if node in parent.values else 0
+                guarded = any(tests_base(v, base, sub) for v in parent.values[:idx])
+            elif isinstance(parent, (ast.If, ast.IfExp, ast.While)) and node is not parent.test:
+                guarded = tests_base(parent.test, base, sub)
+            if not guarded:
+                for field in ("body", "orelse", "finalbody"):
+                    blk = getattr(parent, field, None)
+                    if isinstance(blk, list) and node in blk:
+                        for st in blk[:blk.index(node)]:
+                            if isinstance(st, ast.If) and st.body and isinstance(st.body[-1], (ast.Return, ast.Raise, ast.Continue, ast.Break)) and tests_base(st.test, base, sub):
+                                guarded = True
+            node = parent
+        if not guarded:
+            out.append(f"{src(sub)} (line {sub.lineno})")
+    return out
+
+
+def r6_empty_reads(repo, report):
+    # the detector itself must see the embedded positive example on every run (the expected count on the tree is zero)
+    fx = ast.parse(_FIXTURE_EMPTY)
+    for n in ast.walk(fx):
+        for ch_ in ast.iter_child_nodes(n):
+            ch_._parent = n
+    got = {c.name: unguarded_constant_index(c.body[0]) for c in fx.body if isinstance(c, ast.ClassDef)}
+    report.ob("C03.R6", "detector self-check: unguarded constant index", len(got.get("Bad", [])) == 2 and got.get("Good") == [], facts={k: v for k, v in got.items()}, expected="2 findings in the bad fixture, none in the good one", loc="sa/rules/c03.py")
+    n = 0
+    for base in ("SingleEndModifier", "PairedEndModifier"):
+        for cls in repo.subclasses(base):
+            fn = cls.methods.get("__call__")
+            if fn is None:
+                continue
+            n += 1
+            bad = unguarded_constant_index(fn)
+            if bad:
+                report.ob("C03.R6", f"{cls.name}.__call__ accepts the empty read", False, facts={"unguarded": bad}, expected="no read.sequence[k] / read.qualities[k] without a test that the string is non-empty", loc=repo.loc(fn),
+                          why=f"{bad[0]} raises IndexError on an empty read (a read may be empty in the input or become empty through an earlier modifier); the run aborts instead of passing the read on")
+    report.ob("C03.R6", "modifiers accept the empty read", True, facts={"modifier_call_methods_checked": n}, expected="no unguarded constant index into the read's strings", loc="src/cutadapt/modifiers.py", cases=n)
+    report.floor("C03.R6", "modifier __call__ methods checked for empty reads", n, 15)
